@@ -193,10 +193,16 @@ def fam_method(cfg):
             yield lambda: mk(entry, "method", hs=m, method=m, headers=[("X-Pre", "1")])
 
 
+def url_delims(n=4):
+    """every string up to length n over the URL's own delimiters: which '?' starts the query and which '#' the fragment
+    is decided by ORDER (RFC 3986 3: the first '#' ends everything before it, the first '?' before that starts the query)"""
+    return [x for x in upto(n, ["a", "?", "#", "/"])[1:] if "?" in x or "#" in x]
+
+
 def fam_url(cfg):
     for entry, poss in URL_POS.items():
         for pos in poss:
-            for s in hostile(cfg["n_field"]):
+            for s in hostile(cfg["n_field"]) + (url_delims() if pos in ("path", "query", "frag") else []):
                 yield lambda: mk(entry, "url", hs=s, url=build_url(entry, pos, s), pos=pos, headers=[("X-Pre", "1")])
 
 
@@ -355,7 +361,31 @@ def fam_h2(cfg):
     yield lambda: {"entry": "h2", "fam": "h2-multi", "name": "x-h", "values": [], "hs": ""}
 
 
-FAMILIES = {"method": fam_method, "url": fam_url, "name": fam_name, "value": fam_value, "pair": fam_pair,
+PY_OBJECTS = {"None": lambda: None, "float": lambda: 3.14, "list": lambda: ["a", "b"], "int": lambda: 5, "object": lambda: object()}
+
+
+def py(x):
+    """objects that are not strings travel through cases (and replay files) by name"""
+    if isinstance(x, dict) and "py" in x:
+        return PY_OBJECTS[x["py"]]()
+    return x
+
+
+def fam_nonstr(cfg):
+    """inputs of the wrong TYPE: the call fails with whatever exception (TypeError, AttributeError ...) - and, like every
+    rejected call, must leave nothing behind on the object: the follow-up request goes out alone"""
+    for entry in ("conn", "pool_rel", "pm"):
+        for t in ("None", "float", "list", "object"):
+            yield lambda: mk(entry, "nonstr", hs="value:" + t, headers=[("X-Pre", "1"), ("X-H", {"py": t}), ("X-Post", "2")])
+        for t in ("None", "int"):
+            yield lambda: mk(entry, "nonstr", hs="name:" + t, headers=[("X-Pre", "1"), ({"py": t}, "v"), ("X-Post", "2")])
+        for t in ("float", "int", "object"):
+            for chunked in (False, True):
+                yield lambda: mk(entry, "nonstr", hs="body:" + t, method="POST", headers=[("X-Pre", "1")], body={"kind": "py", "py": t},
+                                 chunked=chunked)
+
+
+FAMILIES = {"nonstr": fam_nonstr, "method": fam_method, "url": fam_url, "name": fam_name, "value": fam_value, "pair": fam_pair,
             "auto": fam_auto, "body": fam_body, "fields": fam_fields, "h2": fam_h2}
 
 
@@ -373,6 +403,8 @@ def make_body(spec):
     if spec is None:
         return None
     k = spec["kind"]
+    if k == "py":
+        return py(spec)
     if k == "bytes":
         return bytes(spec["data"])
     if k == "bytearray":
@@ -398,6 +430,7 @@ def headers_arg(case):
         return None
     d = {}
     for n, v in case["headers"]:
+        n, v = py(n), py(v)
         if n in d:
             raise HarnessError("duplicate header name in a case: %r" % (n,))
         d[n] = v
@@ -998,6 +1031,11 @@ def judge(case, obs):
         return v
     if case.get("fam") == "body-framing":
         return judge_body_framing(case, obs, v)
+    if case.get("fam") == "nonstr":
+        # a tree that converts such a value instead of refusing it is not judged here (counted)
+        v.outcome = "non-string-input-accepted"
+        v.lax.append("non-string-input-accepted")
+        return v
     # bytes were written: whether or not the call went on to raise, they must be one clean request
     judge_wire(case, obs["wires"], obs["leftover"], obs["reqs"], v)
     if "fields" in case and case["method"].upper() in ("DELETE", "GET", "HEAD", "OPTIONS") and not v.viol:
